@@ -81,7 +81,7 @@ func (g *Gen) distinctNames(k int) []string {
 	return out
 }
 
-var patterns = []string{"^a+$", "[0-9]{3}", "^x", "\\d+", "(a|b)*"}
+var patterns = []string{"^a+$", "[0-9]{3}", "^x", "[a-z]+", "(a|b)*"}
 var formats = []string{"date", "date-time", "uuid", "int32", "int64", "byte", "email", "unknownfmt", "password"}
 
 func (g *Gen) enumVals() []any {
